@@ -144,6 +144,10 @@ class System:
             if cur is not None:
                 ops.append('touch:%s' % f)
                 ops.append('delete:%s' % f)
+        # the second policy directory can vanish as a whole (with its file)
+        if 'd2/a' in self.spec['files'] and \
+                os.path.isdir(self.w.path('d2')):
+            ops.append('rmdir:d2')
         ops += ['observe', 'load']
         if force:
             ops.append('force')
@@ -156,6 +160,9 @@ class System:
         if kind == 'write':
             f, cid = rest.rsplit(':', 1)
             self._write(f, cid)
+        elif kind == 'rmdir':
+            self.w.rmdir(rest)
+            self.content['d2/a'] = None
         elif kind == 'touch':
             self.w.touch(PATHS[rest])
         elif kind == 'delete':
@@ -325,7 +332,7 @@ def judge(acc, hist, out, space):
     """Evaluate the invariant for the last step of `hist`."""
     if out is None:
         return
-    nontriv = any(o.split(':')[0] in ('write', 'touch', 'delete')
+    nontriv = any(o.split(':')[0] in ('write', 'touch', 'delete', 'rmdir')
                   for o in hist[1:])
     if isinstance(out, tuple) and out and out[0] == 'exc':
         acc.violation('exception|%s|%s' % (out[1], norm_hist(hist)),
@@ -382,7 +389,7 @@ def run(job, seed):
                 acc.ev()
                 last = outs[-1] if outs else None
                 broke = isinstance(last, tuple) and last and last[0] == 'exc'
-                nontriv = any(o.split(':')[0] in ('write', 'touch', 'delete')
+                nontriv = any(o.split(':')[0] in ('write', 'touch', 'delete', 'rmdir')
                               for o in h2[1:]) and 'observe' in h2
                 acc.case(wname, nontriv)
                 if op == 'observe' or broke:
